@@ -1139,6 +1139,8 @@ func runC14(ctx *core.Ctx) {
 			ctx.Add("c14.deriv", c14DerivArgs{Proj: b, Op: op})
 		}
 	}
+	// visiting services: real ForEachService vs the walk of Model/HeapVisit.lean
+	runC14Visit(ctx, bases)
 	// every pair of operations on the first two bases
 	for _, b := range bases[:ctx.Pick(2, 4)] {
 		if b.Size == 2 {
